@@ -62,6 +62,28 @@ def elevation_first(F, R, name):
              witness={"rows": [[list(map(list, a)), str(r)] for a, r in rows][:8]})
 
 
+def path_ip_port(atoms, cval):
+    """(ip value, port value) a path has established by equality tests, for both spellings of the dispatch:
+    `ip == constants::X_IP && port == constants::X_PORT` (named constants) and `match (ip.as_str(), port) { (X_IP, X_PORT) => ..}` (literals)"""
+    ipv, portv = None, None
+    for d, v in atoms:
+        if d.startswith("eq(param:ip") and v is True:
+            ipv = d.split("const:")[-1].rstrip(")").strip("'")
+            for n in cval:
+                if ("const:" + K + n) in d:
+                    ipv = cval[n]
+        if d == "val(param:port)" and isinstance(v, int) and not isinstance(v, bool):
+            portv = v
+        if d.startswith("Eq(param:port") and v is True:
+            lit = d.split("const:")[-1].rstrip(")")
+            if lit.isdigit():
+                portv = int(lit)
+            for n in cval:
+                if ("const:" + K + n) in d:
+                    portv = cval[n]
+    return ipv, portv
+
+
 def run(F, R, tier):
     R.explanation = (
         "Guard-first dominance in WireServer/GAPlugin::authorize (no non-Forbidden result and no rule consultation "
@@ -104,25 +126,22 @@ def run(F, R, tier):
             ps = []
             R.fail("C03.R2", "C03.R2:%s:not-analysable" % fn["id"], "-", str(e))
         built_seen = set()
+        cval = {n: F.consts.get(K + n, {}).get("val") for n in sum(([a, b] for a, b in DISPATCH.values()), [])}
         for p in ps:
             atoms = paths.path_atoms(B, F, p)
-            pos = set()
-            for d, v in atoms:
-                if v is True:
-                    for cname in sum(([a, b] for a, b in DISPATCH.values()), []):
-                        if ("const:" + K + cname) in d:
-                            pos.add(cname)
+            ipv, portv = path_ip_port(atoms, cval)
+            pos = (ipv, portv)
             built = None
             for b, _ in p:
                 for s in B.blocks[b]["stmts"]:
                     if s["k"] == "assign" and s["rv"]["k"] == "agg" and s["rv"]["ak"] == "adt" and s["rv"]["adt"].startswith(AZ):
                         built = s["rv"]["adt"][len(AZ):]
-            expected = [n for n, (i, pt) in DISPATCH.items() if i in pos and pt in pos]
+            expected = [n for n, (i, pt) in DISPATCH.items() if cval[i] == ipv and cval[pt] == portv]
             exp = expected[0] if len(expected) == 1 else ("Default" if not expected else "|".join(expected))
             built_seen.add(built)
             R.check(built == exp, "C03.R2", R.key("C03.R2", fn["id"], "path"), "%s:%s" % (fn["file"], fn["line"]),
-                    "equal-constants %s => builds %s" % (sorted(pos), built),
-                    "path with equal-constants %s builds %s, table says %s" % (sorted(pos), built, exp))
+                    "(ip,port)=%s => builds %s" % (pos, built),
+                    "path on which (ip,port)=%s builds %s, table says %s" % (pos, built, exp))
         R.check(built_seen >= set(DISPATCH) | {"Default"}, "C03.R2", "C03.R2:%s:all-authorizers-built" % fn["id"], "-",
                 "all five authorizers are constructed on some path: %s" % sorted(map(str, built_seen)))
     # authorize() goes through get_authorizer with its own ip/port/claims
@@ -155,19 +174,7 @@ def run(F, R, tier):
         seen = {}
         for p in ps:
             atoms = paths.path_atoms(B, F, p)
-            ipv, portv = None, None
-            for d, v in atoms:
-                if d.startswith("eq(param:ip") and v is True:
-                    ipv = d.split("const:")[-1].rstrip(")").strip("'")
-                    for n in cval:
-                        if ("const:" + K + n) in d:
-                            ipv = cval[n]
-                if d == "val(param:port)" and isinstance(v, int):
-                    portv = v
-                if d.startswith("Eq(param:port") and v is True:
-                    for n in cval:
-                        if ("const:" + K + n) in d:
-                            portv = cval[n]
+            ipv, portv = path_ip_port(atoms, cval)
             getters = []
             for b, _ in p:
                 t = B.blocks[b]["term"]
